@@ -40,8 +40,11 @@ where
             while self.fill()? && self.core.match_by_line(self.rdr.buffer())? {
             }
         }
+        // The reader's offset is the offset of the start of its buffer. When
+        // the search stops before the buffer is exhausted, the bytes searched
+        // additionally include everything up to the core's position in it.
         self.core.finish(
-            self.rdr.absolute_byte_offset(),
+            self.rdr.absolute_byte_offset() + self.core.pos() as u64,
             self.rdr.binary_byte_offset(),
         )
     }
@@ -73,6 +76,7 @@ where
         // is nothing left to search. So forcefully quit.
         if consumed == 0 && old_buf_len == self.rdr.buffer().len() {
             self.rdr.consume(old_buf_len);
+            self.core.set_pos(0);
             return Ok(false);
         }
         Ok(true)
